@@ -46,7 +46,7 @@ func checkC05(w *World, r *Report) {
 	c05ServerName(w, r)
 	c05ConfigProvenance(w, r)
 	c05SharedSecret(w, r)
-	c05FreshConfig(w, r)
+	c05FreshConfig(w, r, "R05.7")
 }
 
 func c05WhoDisables(w *World, r *Report) {
@@ -654,10 +654,10 @@ var _ = token.NoPos
 // every GetTlsConfig must hand out a fresh object: the returned config derives
 // only from an allocation made in the same call (or from another GetTlsConfig
 // call) and that allocation is not also stored into longer-lived state.
-func c05FreshConfig(w *World, r *Report) {
+func c05FreshConfig(w *World, r *Report, rule string) {
 	ti := w.Interface("internal/util/cert", "TlsConfig")
 	if ti == nil {
-		r.Undecided("R05.7", "anchor", "-", "anchor unresolved: cert.TlsConfig")
+		r.Undecided(rule, "anchor", "-", "anchor unresolved: cert.TlsConfig")
 		return
 	}
 	// is the result mutated by callers at all? (then freshness is required)
@@ -688,8 +688,13 @@ func c05FreshConfig(w *World, r *Report) {
 			}
 		})
 	}
+	seenM := map[*types.Func]bool{}
 	for _, n := range w.Implementers(ti) {
 		m := methodOf(n, "GetTlsConfig")
+		if m == nil || seenM[m] {
+			continue
+		}
+		seenM[m] = true
 		fn := w.SSAFunc(m)
 		key := "method:" + funcKey(m) + "|fresh"
 		if fn == nil {
@@ -729,6 +734,6 @@ func c05FreshConfig(w *World, r *Report) {
 		if nret == 0 {
 			continue
 		}
-		r.Check(bad == "", "R05.7", key, w.Pos(m.Pos()), fmt.Sprintf("every call builds a fresh tls.Config (callers mutate the result at %d site(s))", mutated), bad)
+		r.Check(bad == "", rule, key, w.Pos(m.Pos()), fmt.Sprintf("every call builds a fresh tls.Config (callers mutate the result at %d site(s))", mutated), bad)
 	}
 }
